@@ -9,6 +9,7 @@ import os
 from . import vlib
 from . import eng_gfi
 
+RESAMPLE = ["CRepSw", "CVmSw"]      # update that changes every element's switch index: the fresh draws must be independent
 PROGS = ["CChain", "CIndep", "CNest", "CVm", "CRep", "CSc", "CScI", "CSw", "CMsk", "CMix", "CDm"]
 DELTA = 1e-12
 
@@ -38,6 +39,7 @@ def _sample(args):
 
 def _sample1(args):
     catalog, pid, ai, n, seed = args
+    via_update = ai < 0
     import jax
     import jax.numpy as jnp
     import numpy as np
@@ -45,10 +47,14 @@ def _sample1(args):
     e = catalog[pid]
     p = e["p"]
     gf = gb.build(p)
-    argsV = e["as"][ai]
+    argsV = e["as"][1 if via_update else ai]
     a = gb.call_args(p, argsV)
     keys = jax.random.split(jax.random.key(seed), n)
     from genjax import Mask
+    if via_update:
+        from genjax import Update, ChoiceMap
+        from genjax._src.core.compiler.interpreters.incremental import Diff
+        base = gf.simulate(jax.random.key(seed + 7), gb.call_args(p, e["as"][0]))
 
     def table(chm):
         vs, ps = [], []
@@ -64,7 +70,10 @@ def _sample1(args):
         return jnp.stack(vs), jnp.stack(ps)
 
     def sim(k):
-        tr = gf.simulate(k, a)
+        if via_update:      # the branch index of every element changes: the whole execution is redrawn
+            tr, _, _, _ = Update(ChoiceMap.empty()).edit(k, base, Diff.unknown_change(a))
+        else:
+            tr = gf.simulate(k, a)
         v, pr = table(tr.get_choices())
         return v, pr, tr.get_score(), tr.get_args()
 
@@ -75,7 +84,7 @@ def _sample1(args):
 
     vals, pres, sc1, oargs = [np.asarray(x) if not isinstance(x, tuple) else x for x in jax.jit(jax.vmap(sim))(keys)]
     vals2, pres2, sc2, _ = jax.jit(jax.vmap(sim))(keys)
-    vals3, pres3, sc3 = jax.jit(jax.vmap(prop))(keys)
+    vals3, pres3, sc3 = jax.jit(jax.vmap(prop))(keys) if not via_update else (vals, pres, sc1)
     vals2, pres2, vals3, pres3 = map(np.asarray, (vals2, pres2, vals3, pres3))
     det = bool(np.array_equal(vals * pres, vals2 * pres2) and np.array_equal(pres, pres2)
                and np.array_equal(vals * pres, vals3 * pres3) and np.array_equal(pres, pres3)
@@ -202,6 +211,8 @@ def run(prop_id, tier, seed, replay=None):
     for pid in PROGS:
         for ai in range(len(catalog[pid]["as"])):
             jobs.append((catalog, pid, ai, n, (seed * 1000003 + len(jobs) * 7919 + 17) % (2 ** 31)))
+    for pid in RESAMPLE:
+        jobs.append((catalog, pid, -1, n, (seed * 1000003 + len(jobs) * 7919 + 17) % (2 ** 31)))
     if replay:
         d = replay_d
         jobs = [(catalog, d["pid"], d["ai"], n, d["key"])]
